@@ -26,6 +26,15 @@ theorem insert_binds_primary_key : ∀ m ∈ Gen.insertMethods, bindsPk Gen.tabl
 /-- `Database._connect` keeps python's implicit transaction (an INSERT is not durable before `commit`) -/
 theorem connection_not_autocommit : Gen.connectAutocommit = false := by decide
 
+/-- the anchored durability mechanism as written in `_initial_statements`: WAL journal, synchronous NORMAL (a process
+    kill cannot tell NORMAL from OFF, an operating-system crash can; that part of the mechanism is only checked here,
+    on the source text, and read back from the reopened file by the harness) -/
+theorem durability_pragmas : Gen.journalModeWal = true ∧ Gen.synchronousNormal = true := by decide
+
+/-- `db_call` waits for the database lock (blocking `with db_locks[…]`) and calls the wrapped function whenever the
+    cursor exists — it never returns None for a live database just because another thread holds the lock -/
+theorem db_call_waits_for_lock : Gen.dbCallBlocking = true := by decide
+
 example : Gen.insertMethods.length ≥ 4 := by decide
 
 /-! ## crash at any point of any workload of inserts -/
@@ -154,12 +163,18 @@ example :
 
 /-! ## the property text, clause by clause (corollaries of `acked_survive`) -/
 
-/-- **every record whose insert call had returned is present and unchanged.**  Call number `i` had returned (or
-    raised) before the kill (`i <` number of completed calls).  Then (a) if it is an INSERT OR IGNORE, a record
-    with its primary key is visible; (b) if no earlier call used the same table and key, exactly its own record
-    is visible — for any conflict clause.  (With (c) `visible_keys_unique` below: under a key shared by several
-    calls the first call's record is the one that stays.) -/
-theorem acked_present_unchanged (C : CommitMethod) (hC : wfCommit C = true) (W : List Call) (hW : TopLevel W)
+/-- **every record whose insert call had returned is present and unchanged — PARTIAL.**
+    Full statement of the clause (what the property says):
+      for every call `c` with record `row` that had returned before the kill, `row ∈ visible (crashAt C W k j)`.
+    That is FALSE for the current schema, with or without a kill: the primary keys are narrower than the records
+    (Tokens omits signature and content, Metadata omits the JSON, Attestations omits the authority) and the inserts
+    are INSERT OR IGNORE, so a returned insert of a *different* record under an existing key stores nothing
+    (`acked_distinct_record_dropped_witness` below; known findings `…:acked-distinct-record-dropped-by-primary-key`).
+    Proved part: call number `i` had returned (or raised) before the kill.  Then (a) if it is an INSERT OR IGNORE, a
+    record with its primary key is visible; (b) if no earlier call used the same table and key — the excluding
+    hypothesis — exactly its own record is visible, for any conflict clause; with (c) `visible_keys_unique`: under a
+    key shared by several calls the first call's record is the one that stays, unchanged. -/
+theorem acked_present_unchanged_partial (C : CommitMethod) (hC : wfCommit C = true) (W : List Call) (hW : TopLevel W)
     (k j i : Nat) (c : Call) (hi : W[i]? = some c) (hdone : i < (if j ≤ 2 then k else k + 1))
     (row : Row) (hrow : rowOf c = some row) :
     ((∃ rest, c.ops = .exec row.table .orIgnore :: rest) →
@@ -203,6 +218,17 @@ theorem acked_present_unchanged (C : CommitMethod) (hC : wfCommit C = true) (W :
         exact hfirst i' c' hlt hW' r' hrc' ⟨ht, hkk⟩
     rw [(specStep_fresh (spec (W.take i)) c hc row hrow hfresh).1]
     simp
+
+/-- the negation of the full clause, on the generated methods: two authorities attest the same metadata of the same
+    subject (`insert_attestation`, table 2, same primary-key id 7, different records 70 / 71); both calls return;
+    no kill is needed (crash point after both calls) — the second record is not in the store -/
+theorem acked_distinct_record_dropped_witness :
+    ∃ (W : List Call) (k j i : Nat) (c : Call) (row : Row),
+      (∀ c ∈ W, ∃ m ∈ Gen.insertMethods, c.ops ∈ m.paths) ∧ W[i]? = some c ∧ i < k ∧ rowOf c = some row ∧
+      c.id ∈ (crashAt Gen.commitMethod W k j).acks ∧ row ∉ visible (crashAt Gen.commitMethod W k j) :=
+  ⟨[⟨0, [.exec 2 .orIgnore, .callCommit, .ret], 7, 70⟩, ⟨1, [.exec 2 .orIgnore, .callCommit, .ret], 7, 71⟩],
+   2, 0, 1, ⟨1, [.exec 2 .orIgnore, .callCommit, .ret], 7, 71⟩, ⟨2, 7, 71⟩,
+   by decide, by decide, by decide, by decide, by decide, by decide⟩
 
 /-- (c) at most one visible record per table and primary key, at every crash point -/
 theorem visible_keys_unique (C : CommitMethod) (hC : wfCommit C = true) (W : List Call) (hW : TopLevel W)
@@ -271,6 +297,27 @@ theorem rebuilt_tree_complete (toks : List Tok) : ∀ t ∈ toks, t.id ∈ reloa
   simp only [reload, List.mem_map]
   exact ⟨t, ht, rfl⟩
 
+/-- **store → reload → tree, composed**: after a kill at any point of any block-free workload that writes records
+    after the ones they point to (`Causal`), let the reload loop read the visible token rows of table `tt` in ANY
+    order (`toks` is a permutation of them, each with its predecessor from `dep`; pointers stay inside the table).
+    Then every visible token is in the rebuilt tree and its pointer chain reaches genesis through tokens of the
+    rebuilt tree — what `TokenTree.verify` walks (signatures and the depth limit of 1000 are not modelled).
+    The reload mode is the generated one; the proof uses only `rebuilt_tree_complete`, i.e. it holds for every reload
+    that keeps all tokens, and fails (example below) for one that does not. -/
+theorem rebuilt_pseudonym_verifies (C : CommitMethod) (hC : wfCommit C = true) (W : List Call) (hW : TopLevel W)
+    (dep : Nat → Nat → Option (Nat × Nat)) (hdep : Causal dep W) (k j tt : Nat)
+    (hin : ∀ key d, dep tt key = some d → d.1 = tt) (toks : List Tok)
+    (hperm : toks.Perm (toksOf dep tt (visible (crashAt C W k j)))) :
+    ∀ r ∈ visible (crashAt C W k j), r.table = tt →
+      ChainIn dep tt (reload Gen.reloadMode toks) r.key := by
+  intro r hr ht
+  have hreach := (rebuild_verifies C hC W hW dep hdep k j).2 r hr
+  rw [ht] at hreach
+  refine chainIn_of_reaches dep tt _ _ hin ?_ tt r.key hreach rfl
+  intro r' hr' ht'
+  exact rebuilt_tree_complete toks ⟨r'.key, (dep tt r'.key).map (·.2)⟩
+    (hperm.mem_iff.mpr (mem_toksOf dep tt _ r' hr' ht'))
+
 /-- a chain 0 ← 1 ← 2 ← 3 ← 4 read back newest first through a buffer of 2: tokens 4 and 3 are dropped -/
 example : reload (.gather 2) [⟨4, some 3⟩, ⟨3, some 2⟩, ⟨2, some 1⟩, ⟨1, some 0⟩, ⟨0, none⟩] = [0, 1, 2] := by decide
 
@@ -334,30 +381,40 @@ example :
 
 /-! ## the database opens again -/
 
-/-- **the database opens again without error** (IdentityDatabase): whatever state a kill left the file in — also a
-    kill between the statements of the schema script of an earlier `open()`, each of which commits on its own —
-    `open()` succeeds (no statement of the script raises: tables are created IF NOT EXISTS, the version row is deleted
-    before it is inserted), and once it completes the schema and the version row are there.  The flag part is decided
-    on the generated handler list and script for all four (option table, version row) start states and every prefix
-    of the script; the table part is proved for every start state. -/
-theorem reopen_never_fails_identity :
-    OpenSafe Gen.versionHandlers Gen.schemaIdentityDatabase Gen.tablesIdentityDatabase :=
-  openSafe_of _ _ _ (by decide) (by decide)
+/-- **the database opens again without error** (IdentityDatabase): whatever a kill left of a file written by this
+    release — also a kill between the statements of the schema script of an earlier `open()`, each of which commits
+    on its own — `open()` raises nothing (version-row read survived; tables are created IF NOT EXISTS; the version row
+    is deleted before it is inserted) and ends with option table and version row.  Scope: the state `open()` depends
+    on is (option table, version row, its value, upgraded column); `_initial_statements` (pragmas, VACUUM) is SQLite's
+    business and is only exercised by the kill runs.  Proof: simulation on table-free states (`runTx_flags`), then
+    `decide` over all of them × every prefix of the statements `open()` runs, on the generated configuration. -/
+theorem reopen_never_fails_identity : OpenSafe Gen.openIdentityDatabase 1 :=
+  openSafe_of _ _ (by decide)
 
-/-- the same for AttestationsDB -/
-theorem reopen_never_fails_wallet :
-    OpenSafe Gen.versionHandlers Gen.schemaAttestationsDB Gen.tablesAttestationsDB :=
-  openSafe_of _ _ _ (by decide) (by decide)
+/-- the same for AttestationsDB, **including files of schema version 1** that `check_database` upgrades
+    (`ALTER TABLE … ADD id_format`): a kill behind any statement of the upgrade or schema script leaves a file that
+    opens again and ends upgraded.  Holds because the generated upgrade script is one transaction that also bumps
+    the version row (commit f3c7ff7); see the example below for the script it replaced. -/
+theorem reopen_never_fails_wallet : OpenSafe Gen.openAttestationsDB 2 :=
+  openSafe_of _ _ (by decide)
 
-/-- what the handler list is for (the behaviour before commit fdb0f78): killed after `CREATE TABLE option`,
-    before the version row is inserted, the next open fails -/
+/-- what the handler list is for (before commit fdb0f78): killed after `CREATE TABLE option`, before the version row
+    is inserted, the next open fails -/
 example :
-    openOk [.operationalError] Gen.schemaIdentityDatabase
-      (openKilled [.operationalError] Gen.schemaIdentityDatabase 4 {}) = false := by decide
+    let cfg := { Gen.openIdentityDatabase with handlers := [.operationalError] }
+    openOk cfg (openKilled cfg 4 {}) = false := by decide
+
+/-- what the transaction in the upgrade script is for (before commit f3c7ff7): a version-1 file killed right after
+    the ALTER TABLE says version 1 and has the column; the next open raises "duplicate column name" -/
+example :
+    let cfg := { Gen.openAttestationsDB with upgrades := [(1, [.alterAddCol, .fillCol])] }
+    let v1 : OpenSt := { tables := [3], option := true, version := true, ver := 1, col := false }
+    openOk cfg v1 = true ∧ openOk cfg (openKilled cfg 1 v1) = false := by decide
 
 /-- and what `DELETE … database_version` is for: without it the second open raises on the duplicate version row -/
 example :
-    openOk Gen.versionHandlers [.createOption, .insertVersion]
-      (openEnd [.createOption, .insertVersion] {}) = false := by decide
+    let cfg : OpenCfg := { handlers := Gen.versionHandlers, latest := 1, upgrades := [],
+                           script := [.createOption, .insertVersion 1] }
+    openOk cfg (openEnd cfg {}) = false := by decide
 
 end Ipv8.C19
